@@ -92,6 +92,41 @@ func runC19(c *Ctx) {
 		return false
 	}
 
+	// the functions of the package that (themselves or through what they call)
+	// store into a framebuffer
+	drawers := map[*ssa.Function]bool{}
+	for changed := true; changed; {
+		changed = false
+		for _, fn := range m.Funcs {
+			if drawers[fn] || fn.Pkg == nil || fn.Pkg.Pkg.Path() != m.ModPath+"/"+cons {
+				continue
+			}
+			for _, b := range fn.Blocks {
+				for _, in := range b.Instrs {
+					if isFbStore(in) {
+						drawers[fn] = true
+					}
+					if cc := callCommon(in); cc != nil {
+						if cal := cc.StaticCallee(); cal != nil && drawers[cal] {
+							drawers[fn] = true
+						}
+					}
+				}
+			}
+			if drawers[fn] {
+				changed = true
+			}
+		}
+	}
+	isDrawCall := func(in ssa.Instruction) bool {
+		if cc := callCommon(in); cc != nil {
+			if cal := cc.StaticCallee(); cal != nil && drawers[cal] {
+				return true
+			}
+		}
+		return false
+	}
+
 	// ================= R1 =================
 	c.floor("C19.R1", 4)
 	type drv struct {
@@ -112,7 +147,8 @@ func runC19(c *Ctx) {
 		key := "write-guards " + m.fnName(fn)
 		var targets []int
 		for n, in := range g.Ins {
-			if isFbStore(in) || isPainterCall(in) {
+			// (a call of another drawing method of the driver, Fill or Scroll, paints too)
+			if isFbStore(in) || isPainterCall(in) || isDrawCall(in) && m.helperOf(in) == nil {
 				targets = append(targets, n)
 			}
 		}
@@ -690,6 +726,50 @@ func runC19(c *Ctx) {
 			}
 			c.check(bad == "", "C19.R6", "fill-geometry "+m.fnName(fill), fmt.Sprintf("%d painter call(s), each with the clipped rectangle scaled by the glyph size", ncall), bad, where...)
 		}
+	}
+	// the text-mode driver paints the cells itself: every cell store of its Fill
+	// sits in the column loop inside the row loop and moves by one cell per
+	// column (a store outside the column loop happens once per row whatever the
+	// width, also for an empty rectangle)
+	if vfill := meth("VgaTextConsole", "Fill"); vfill == nil {
+		c.unresolved("C19.R6", "VgaTextConsole.Fill")
+	} else {
+		g := newIG(m, vfill, nil)
+		bad, nst := "", 0
+		var where []string
+		for n, in := range g.Ins {
+			st, ok := in.(*ssa.Store)
+			if !ok || !isFbStore(in) {
+				continue
+			}
+			nst++
+			ls := g.loopsAround(n)
+			if len(ls) < 2 {
+				bad = "a cell is written outside the column loop: once per row whatever the rectangle's width"
+				where = append(where, g.posOf(n))
+				continue
+			}
+			ia, _ := st.Addr.(*ssa.IndexAddr)
+			zi := &Polyizer{}
+			lf, okL := g.loopFormAt(zi, ls[0])
+			if ia == nil || !okL {
+				bad = "the cell store is not indexed by the column loop's counter"
+				where = append(where, g.posOf(n))
+				continue
+			}
+			_, step, okA := lf.affineInT(ia.Index)
+			tok := lf.TripsOK
+			lf.Done()
+			if k, isK := step.isConst(); !okA || !isK || k != 1 || !tok {
+				bad = "the cell index does not advance by one cell per iteration of a counting column loop"
+				where = append(where, g.posOf(n))
+			}
+		}
+		if nst == 0 && bad == "" {
+			// cells written through copy/clear only: not the shape this rule decides
+			bad = "VgaTextConsole.Fill has no cell store in a row/column loop nest (rule shape lost)"
+		}
+		c.check(bad == "", "C19.R6", "fill-cells "+m.fnName(vfill), fmt.Sprintf("%d cell store(s), each inside the column loop inside the row loop, one cell per column", nst), bad, where...)
 	}
 }
 
